@@ -22,6 +22,7 @@ import (
 	"time"
 
 	"go.etcd.io/bbolt/xverif/props"
+	"go.etcd.io/bbolt/xverif/work"
 )
 
 func envInt(name string, def int) int {
@@ -264,6 +265,7 @@ func main() {
 		res  *props.Result
 		code int
 		out  string
+		id   int
 	}
 	ch := make(chan wr, *jobs)
 	for i := 0; i < *jobs; i++ {
@@ -271,7 +273,7 @@ func main() {
 			DeadlineMS: deadline.UnixMilli(), MaxRuns: *maxRuns, OutDir: scratch, ID: i, StuckS: 30}
 		go func() {
 			r, c, o := runWorker(bin, sp, time.Duration(bud)*time.Second+5*time.Minute)
-			ch <- wr{r, c, o}
+			ch <- wr{r, c, o, sp.ID}
 		}()
 	}
 	agg := &props.Result{Probes: map[string]int{}, Faults: map[string]int{}, OtherProps: map[string]int{}}
@@ -281,7 +283,24 @@ func main() {
 	for i := 0; i < *jobs; i++ {
 		w := <-ch
 		if w.res == nil {
-			harnessTrouble = append(harnessTrouble, fmt.Sprintf("worker died without a result (exit %d): %s", w.code, tail(w.out, 1500)))
+			// a worker that died while evaluating a journalled case: the crash is the finding
+			attributed := false
+			if js, _ := filepath.Glob(filepath.Join(scratch, fmt.Sprintf("journal-%d.json", w.id))); len(js) > 0 {
+				for _, j := range js {
+					c, err := props.LoadCase(j)
+					if err != nil || c.Violation != nil {
+						continue
+					}
+					what, _ := os.ReadFile(strings.TrimSuffix(j, ".json") + ".what")
+					c.Violation = &work.Violation{Prop: prop, Class: "process-crash", Msg: fmt.Sprintf("the process died while evaluating: %s :: %s", what, firstPanicLine(w.out))}
+					_ = props.SaveCase(j, c)
+					agg.Violations = append(agg.Violations, props.ViolRec{Prop: prop, Class: "process-crash", Msg: c.Violation.Msg, Path: j, Run: c.Run})
+					attributed = true
+				}
+			}
+			if !attributed {
+				harnessTrouble = append(harnessTrouble, fmt.Sprintf("worker died without a result (exit %d): %s", w.code, tail(w.out, 1500)))
+			}
 			continue
 		}
 		if w.code != 0 && w.code != 3 {
@@ -346,7 +365,7 @@ func main() {
 		if *tier == "thorough" {
 			shrinkBudget, shrinkS = 3000, 300
 		}
-		if true {
+		if v.Class != "process-crash" {
 			sp := &props.Spec{Mode: "shrink", Prop: prop, Tier: *tier, OutDir: scratch, ID: 100 + len(verdicts), Replay: v.Path,
 				ShrinkBudget: shrinkBudget, DeadlineMS: time.Now().Add(time.Duration(shrinkS) * time.Second).UnixMilli(), StuckS: 30}
 			res, _, _ := runWorker(bin, sp, time.Duration(shrinkS+120)*time.Second)
@@ -358,6 +377,9 @@ func main() {
 		sp := &props.Spec{Mode: "replay", Prop: prop, Tier: *tier, OutDir: scratch, ID: 200 + len(verdicts), Replay: final, StuckS: 20}
 		res, code, _ := runWorker(bin, sp, 5*time.Minute)
 		repro := res != nil && (res.Reproduced || (code == 3 && v.Class == "hang"))
+		if v.Class == "process-crash" && res == nil && code != 0 && code != 124 {
+			repro = true // it crashed again
+		}
 		if !repro && final != v.Path {
 			// fall back to the unshrunk case
 			final = v.Path
@@ -499,6 +521,15 @@ func main() {
 		exit(2)
 	}
 	exit(0)
+}
+
+func firstPanicLine(s string) string {
+	for _, l := range strings.Split(s, "\n") {
+		if strings.HasPrefix(l, "panic:") || strings.HasPrefix(l, "fatal error:") || strings.HasPrefix(l, "unexpected fault") || strings.HasPrefix(l, "SIG") {
+			return l
+		}
+	}
+	return tail(s, 200)
 }
 
 func tail(s string, n int) string {
